@@ -1,0 +1,27 @@
+// Scheduling points for the external verification harness (feature `verif_hooks`).
+//
+// With the feature disabled nothing in this file is compiled and no call site exists.
+
+use std::cell::RefCell;
+
+type Hook = Box<dyn Fn(&'static str)>;
+
+thread_local! {
+    static HOOK: RefCell<Option<Hook>> = const { RefCell::new(None) };
+}
+
+/// Installs (or removes) the hook of the calling thread.
+pub fn set_hook(hook: Option<Hook>) {
+    HOOK.with(|h| *h.borrow_mut() = hook);
+}
+
+/// Called at the boundaries of the tree's critical sections; never while an inner lock is held.
+pub fn yield_point(label: &'static str) {
+    let _ = HOOK.try_with(|h| {
+        if let Ok(guard) = h.try_borrow() {
+            if let Some(hook) = guard.as_ref() {
+                hook(label);
+            }
+        }
+    });
+}
